@@ -152,6 +152,9 @@ class Harness:
         elif name == "init":
             self.n_created += 1
             ci = {"name": f"init-client-{self.n_created}", "version": "9"}
+            # (the client's info is whatever object the client sent: newer schema members, vendor extensions, odd values)
+            ci.update([{}, {"title": "Client \u00e9"}, {"websiteUrl": "https://example.test/c", "icons": [{"src": "data:,x", "sizes": ["48x48"]}]},
+                       {"x-vendor": {"build": None, "n": [1, 2.5]}, "description": ""}][self.n_created % 4])
             req_ver = op[1] if len(op) > 1 else "2025-03-26"
             msg = parse_message({"jsonrpc": "2.0", "id": self.n_created, "method": "initialize",
                                  "params": {"protocolVersion": req_ver, "clientInfo": ci, "capabilities": {}}})
